@@ -13,7 +13,7 @@ TRUSTED = [
     "Spec encoders for the split formats (Spec/*Spec.v)",
 ]
 RULE = ("responses with 2-6 fragments from the extracted Spec generator; every permutation of the fragments of one reply (exhaustive up to 5 fragments, "
-        "sampled at 6) and every single-fragment duplication at every position; sections gathered with Enforce so that a failing section fails the query; "
+        "sampled at 6), every single-fragment duplication at every position of in-order arrival, and for GameSpy 1 / 3 responses of 3 and 4 fragments a duplicate at every position of every arrival order; sections gathered with Enforce so that a failing section fails the query; "
         "non-trivial = the arrival order differs from in-order or a duplicate is present; distinct by case bytes")
 
 ENFORCE = (2, 2, True)
